@@ -1,0 +1,21 @@
+//go:build verif
+
+package stats
+
+import (
+	"sync/atomic"
+	"time"
+)
+
+// Verification hook (build tag "verif" only): simulated time for the collector's clean-up of
+// endpoint records that have not been used for a while.
+
+// VerifAge makes every endpoint record, and the last clean-up pass, look d older, as if that
+// much time had passed without any request being recorded. Counters and gauges are not touched.
+func (c *Collector) VerifAge(d time.Duration) {
+	c.endpoints.Range(func(_ string, data *endpointData) bool {
+		atomic.AddInt64(&data.lastUsed, -int64(d))
+		return true
+	})
+	atomic.AddInt64(&c.lastCleanup, -int64(d))
+}
